@@ -82,6 +82,14 @@ def check_valid(numeral, unit, space_idx):
         if unit == "%":
             bare = plot_utils.unitsToUserUnits(text)
             back = plot_utils.userUnitToUnits(bare, "%")
+            # "no reference" is spelled by leaving the argument out or by passing its
+            # documented default explicitly (a wrapper forwarding its own optional argument)
+            for how, again in (("None", plot_utils.unitsToUserUnits(text, None)),
+                               ("percent_ref=None",
+                                plot_utils.unitsToUserUnits(text, percent_ref=None))):
+                if again != bare:
+                    out.append(("noref", f"unitsToUserUnits({desc}, {how}) = {again!r} but "
+                                f"unitsToUserUnits({desc}) = {bare!r}"))
         else:
             back = plot_utils.userUnitToUnits(user, unit)
         if not close(back, value) and not (value == 0 and back == 0):
